@@ -16,7 +16,7 @@
 
 namespace
 {
-  enum TState { T_UNUSED = 0, T_RUNNABLE, T_WAIT_MUTEX, T_WAIT_COND, T_WAIT_JOIN, T_FINISHED };
+  enum TState { T_UNUSED = 0, T_RUNNABLE, T_WAIT_MUTEX, T_WAIT_COND, T_WAIT_JOIN, T_FINISHED, T_WAIT_PRED, T_WAIT_QUIESCE };
 
   struct Thr
   {
@@ -29,6 +29,9 @@ namespace
     int woken;        // 1 between the return from a condition wait and the thread's next traced operation
     void* (*fn)(void*);
     void* arg;
+    int (*pred)(void*);   // T_WAIT_PRED
+    void* pred_ctx;
+    int pred_tag;
   };
   struct Mtx { void* native; int id; int owner; };
   struct Cnd { void* native; int id; };
@@ -113,15 +116,27 @@ namespace
     return nC++;
   }
 
-  bool enabled(int t)
+  bool enabled_basic(int t)
   {
     switch(T[t].st)
     {
     case T_RUNNABLE: return true;
     case T_WAIT_MUTEX: return M[T[t].obj].owner == -1;
     case T_WAIT_JOIN: return T[T[t].obj].st == T_FINISHED;
+    case T_WAIT_PRED: return T[t].pred(T[t].pred_ctx) != 0;
     default: return false;
     }
+  }
+  bool enabled(int t)
+  {
+    if(T[t].st == T_WAIT_QUIESCE)
+    {
+      // enabled iff nobody else can make progress (other quiescence waiters do not count)
+      for(int u = 0; u < nT; ++u)
+        if(u != t && T[u].st != T_WAIT_QUIESCE && enabled_basic(u)) return false;
+      return true;
+    }
+    return enabled_basic(t);
   }
 
   uint64_t state_hash(int cur)
@@ -137,6 +152,7 @@ namespace
       if(T[t].st == T_WAIT_MUTEX) o = (uint64_t)M[T[t].obj].id;
       else if(T[t].st == T_WAIT_COND) o = (uint64_t)C[T[t].obj].id * 4096u + (uint64_t)M[T[t].cond_mutex].id;
       else if(T[t].st == T_WAIT_JOIN) o = (uint64_t)T[t].obj;
+      else if(T[t].st == T_WAIT_PRED) o = (uint64_t)T[t].pred_tag;
       h = mix(h, o);
       h = mix(h, T[t].trace);
       h = mix(h, (uint64_t)T[t].woken);
@@ -165,6 +181,8 @@ namespace
       case T_WAIT_COND: s = "waits-cond"; o = C[T[t].obj].id; break;
       case T_WAIT_JOIN: s = "waits-join"; o = T[t].obj; break;
       case T_FINISHED: s = "finished"; break;
+      case T_WAIT_PRED: s = "waits-until"; o = T[t].pred_tag; break;
+      case T_WAIT_QUIESCE: s = "waits-quiescence"; break;
       default: break;
       }
       snprintf(b, sizeof b, "T%d:%s(%ld%s%ld) ", t, s, o, o2 >= 0 ? " owner " : "/", o2);
@@ -380,6 +398,53 @@ extern "C" void vs_point(int tag, long arg)
   const int self = tl_id;
   trace(self, vsched::ev_point, tag, arg);
   reschedule(self);
+}
+
+extern "C" void vs_wait_until(int (*pred)(void*), void* ctx, int tag)
+{
+  if(!vs_managed())
+  {
+    if(!pred(ctx)) { fprintf(stderr, "vsched: vs_wait_until outside the scheduler with a false predicate\n"); _exit(98); }
+    return;
+  }
+  const int self = tl_id;
+  trace(self, vsched::ev_until, tag);
+  T[self].st = T_WAIT_PRED; T[self].pred = pred; T[self].pred_ctx = ctx; T[self].pred_tag = tag;
+  reschedule(self);
+  T[self].st = T_RUNNABLE;
+}
+
+extern "C" void vs_wait_quiescent(int tag)
+{
+  if(!vs_managed()) return;
+  const int self = tl_id;
+  trace(self, vsched::ev_quiesce, tag);
+  T[self].st = T_WAIT_QUIESCE;
+  reschedule(self);
+  T[self].st = T_RUNNABLE;
+}
+
+extern "C" int vs_choose(int n, int tag)
+{
+  if(n <= 1 || !vs_managed()) return 0;
+  const int self = tl_id;
+  if(n > 2 * VS_MAXT) { fprintf(stderr, "vsched: vs_choose with too many options\n"); _exit(98); }
+  int choice = 0;
+  if(g_pos < g_prefix.size())
+  {
+    choice = g_prefix[g_pos];
+    if(choice < 0 || choice >= n) { g_diverged = true; choice = 0; }
+  }
+  ++g_pos;
+  vsched::Decision d;
+  d.nopts = n; d.chosen = choice; d.cur = self; d.cur_enabled = 1;
+  for(int i = 0; i < n; ++i) { d.opt_thread[i] = self; d.opt_kind[i] = vsched::opt_value; }
+  d.preempt_before = g_preempt; d.spurious_before = g_spurious;
+  d.state = mix(state_hash(self), (uint64_t)tag * 1315423911u + (uint64_t)n);
+  g_dec.push_back(d);
+  if(choice != 0) ++g_preempt;
+  trace(self, vsched::ev_choose, tag, choice);
+  return choice;
 }
 
 extern "C" int vs_self(void) { return vs_managed() ? tl_id : -1; }
